@@ -129,7 +129,7 @@ def run(ctx):
   ctx.model('MC_MMC', 'MC_MMC.cfg', workers=8)
   rng = np.random.default_rng(ctx.seed + 14)
   rs = []
-  for i in range(16 if ctx.quick else 288):
+  for i in range(16 if ctx.quick else 480):
     rs.append(dict(supervised=bool(i % 2), diagonal=bool(i % 4 == 3), n=4 if ctx.quick else 10, seed=int(rng.integers(1 << 30))))
   ctx.rule = ('random labelled pair sets x init in {identity, covariance, random, SPD array} x max_iter 1..11 x tol x max_proj '
               'x diagonal in {False (3/4), True (1/4)} x diagonal_c; MMC and MMC_Supervised; one record per cycle (kept / '
